@@ -616,7 +616,15 @@ func c01NoSpaceAtomic(w *World, r *Report) {
 		if !inFatPkg(w, fn) {
 			continue
 		}
-		if len(calls(fn, false, isSetCluster)) == 0 {
+		// the function mutates the FAT itself or through its phase helpers (two levels)
+		mutates := len(calls(fn, false, isSetCluster)) > 0
+		for _, c := range calls(fn, false, func(c ssa.CallInstruction) bool { g := c.Common().StaticCallee(); return g != nil && inFatPkg(w, g) && g.Blocks != nil }) {
+			g := c.Common().StaticCallee()
+			if len(calls(g, false, isSetCluster)) > 0 {
+				mutates = true
+			}
+		}
+		if !mutates || fn.Name() != "allocateSpace" && len(calls(fn, false, isSetCluster)) == 0 {
 			continue
 		}
 		// no-space returns: error returns whose selecting If compares len(slice) with a count
@@ -650,7 +658,8 @@ func c01NoSpaceAtomic(w *World, r *Report) {
 		if len(nospace) == 0 {
 			continue
 		}
-		rule := &flowRule{w: w}
+		rule := &flowRule{w: w, maxDepth: 4}
+		rule.inline = func(g *ssa.Function, site ssa.CallInstruction) bool { return inFatPkg(w, g) }
 		rule.step = func(ins ssa.Instruction, s int) (uint64, bool) {
 			if c, ok := ins.(ssa.CallInstruction); ok && isSetCluster(c) {
 				return 1 << 1, true
